@@ -341,7 +341,7 @@ func hpairs() []hpair {
 				return fmt.Sprint(bytes.Equal(got, wpayload(3, 1500)))
 			},
 			func(w *hworld) string { return w.plain(0) }},
-		{"writers on two encrypted connections of one accessory", "C08 C05 C06", nil,
+		{"writers on two encrypted connections of one accessory", "C08 C05 C06 C09", nil,
 			func(w *hworld) string { _, err := w.hc[0].Write(wpayload(1, 1500)); return fmt.Sprint(err) },
 			func(w *hworld) string { _, err := w.hc[1].Write(wpayload(2, 1100)); return fmt.Sprint(err) },
 			func(w *hworld) string { return w.plain(0) + " / " + w.plain(1) }},
